@@ -158,6 +158,17 @@ def check_parity_identity(case):
     need(bool(np.all(np.abs(w_lam - lv @ W) <= TOL * max(1.0, float(np.max(np.abs(w_lam)))))),
          lambda: f"signed_weights(lambda) = {w_lam.tolist()} != sum_j lambda_j signed_weights(e_j) = {(lv @ W).tolist()}")
 
+    # the multiplier is a *labelled* vector: the same values attached to the constraint labels in another order are
+    # another multiplier (asked right after the first, so an answer remembered by values alone shows)
+    if len(lam) >= 2:
+        m.signed_weights(lam)
+        lam_rev = pd.Series(lv, index=lam.index[::-1])
+        w_rev = _weights(m.signed_weights(lam_rev), n, "signed_weights(relabelled lambda)")
+        exp_rev = lam_rev.reindex(lam.index).to_numpy() @ W
+        need(bool(np.all(np.abs(w_rev - exp_rev) <= TOL * max(1.0, float(np.max(np.abs(exp_rev)))))),
+             lambda: f"signed_weights of the multiplier values {lv.tolist()} attached to the labels in reversed order = {w_rev.tolist()}, "
+                     f"expected sum_j lambda_j signed_weights(e_j) = {exp_rev.tolist()}")
+
     # (iii) a direct instance
     lhs = float(lv @ gh - lv @ gh2)
     rhs = float(-np.sum(w_lam * (h - h2)) / n)
